@@ -14,7 +14,9 @@ MC_Faults ==
        \cup {[f |-> "ufail", k |-> k] : k \in 1 .. MaxK}
        \cup {[f |-> "gfail", k |-> k] : k \in 1 .. MaxK}
        \cup (IF MC_Planner = "prm" THEN {} ELSE {[f |-> "bias", k |-> k] : k \in 1 .. 3})
-MC_StartValid == <<TRUE, FALSE>>
+\* V_VALIDALL=1: every point valid (both problems solvable) - long histories of well-formed use
+ValidAll == EnvOr("V_VALIDALL", "0") = "1"
+MC_StartValid == IF ValidAll THEN <<TRUE, TRUE>> ELSE <<TRUE, FALSE>>
 
 \* the replay world: line of 5 points, point 4 invalid; P1 = 0 -> {3}; P2 starts on the invalid point
 Emit ==
@@ -23,7 +25,7 @@ Emit ==
                              topo |-> [kind |-> "line", n |-> 5, w |-> 5],
                              maxd |-> 2, rad2 |-> 5, lvs |-> 1,
                              bias |-> IF fault.f = "gfail" THEN "1" ELSE "p",
-                             seeded |-> TRUE, valid |-> {0, 1, 2, 3},
+                             seeded |-> TRUE, valid |-> IF ValidAll THEN {0, 1, 2, 3, 4} ELSE {0, 1, 2, 3},
                              probs |-> << [start |-> 0, goal |-> {3}], [start |-> 4, goal |-> {0}] >>,
                              build |-> 3, solve_t |-> 4, autoscript |-> TRUE, fault |-> fault,
                              calls |-> [i \in 1 .. Len(hist') |->
